@@ -11,7 +11,7 @@ using namespace IMATH_INTERNAL_NAMESPACE;
 typedef unsigned U;
 void use9 (Matrix44<U> &a, Matrix33<U> &b, Vec3<U> &v, Vec2<U> &p, Shear6<U> &h, U s, Matrix22<U> &c)
 {
-    a.setEulerAngles (v); a.rotate (v); b.setRotation (s); b.rotate (s); c.setRotation (s); c.rotate (s); c = c * c;
+    a.setEulerAngles (v); a.rotate (v); b.setRotation (s); b.rotate (s); c.setRotation (s); c.rotate (s); c = c * c; c.setScale (s); c.setScale (p); c.scale (p);
     a.setTranslation (v); a.translate (v); a.setScale (v); a.setScale (s); a.scale (v); a.setShear (v); a.setShear (h); a.shear (v); a.shear (h); v = a.translation (); a = a * a;
     b.setTranslation (p); b.translate (p); b.setScale (p); b.setScale (s); b.scale (p); b.setShear (s); b.setShear (p); b.shear (s); b.shear (p); p = b.translation (); b = b * b;
 }
@@ -31,6 +31,7 @@ ALIASES = {
     "setRotation33": "%s::setRotation(%s)" % (M3, U_), "rotate33": "%s::rotate(%s)" % (M3, U_),
     "setRotation22": "Matrix22<%s>::setRotation(%s)" % (U_, U_), "rotate22": "Matrix22<%s>::rotate(%s)" % (U_, U_),
     "mul22": "Matrix22<%s>::operator*(const Matrix22<%s> &) const" % (U_, U_),
+    "setScale22s": "Matrix22<%s>::setScale(%s)" % (U_, U_), "setScale22v": "Matrix22<%s>::setScale(const %s &)" % (U_, V2), "scale22": "Matrix22<%s>::scale(const %s &)" % (U_, V2),
 }
 # std::cos(unsigned) is libstdc++'s integer overload returning double
 TYPE_MAP = {"__gnu_cxx::__enable_if<__is_integer<unsigned int>::__value,double>::__type": "double"}
@@ -38,7 +39,8 @@ RING_TRIG = [(r"^std::cos\(unsigned int\)$", "cxx2c_ring_cos"), (r"^std::sin\(un
 ROT_UNITS = [("setEuler44", "setEulerAngles(r) == Rx(r.x) x Ry(r.y) x Rz(r.z), the elementary row-vector rotations built from the same cos/sin values; last row/column (0,0,0,1)"),
              ("rotate44", "rotate(r) == setEulerAngles(r) x M, arbitrary M (rows 0..2; row 3 unchanged)"),
              ("setRotation33", "3x3 / 2x2 setRotation(r) == [[c,s],[-s,c]] (+ homogeneous row/column)"),
-             ("rotate33", "3x3 rotate(r) == M x setRotation(r) (right multiplication)"), ("rotate22", "2x2 rotate(r) == M x setRotation(r) (right multiplication)")]
+             ("rotate33", "3x3 rotate(r) == M x setRotation(r) (right multiplication)"), ("rotate22", "2x2 rotate(r) == M x setRotation(r) (right multiplication)"),
+             ("scale22", "2x2 setScale (scalar and Vec2) == diag(s); scale(s) == setScale(s) x M")]
 EXTRACTION = {}
 UNITS = [("setTranslation44", "setTranslation sends p to p+t; translation() returns the row"), ("setScale44", "setScale (vector and scalar) scales per axis"),
          ("setShear44", "setShear(Vec3) is the documented shear"), ("translate44", "translate(t) == setTranslation(t) x M, arbitrary M"),
@@ -73,6 +75,5 @@ def extra_coverage(units, tier):
 NOT_COVERED = [
     "orthonormality / determinant +1 of the rotation builders (needs c^2+s^2=1: ideal membership, not a polynomial identity); setAxisAngle (normalisation: sqrt and division)",
     "rotationMatrix*, alignZAxisWithTargetDir, computeLocalFrame, firstFrame/nextFrame/lastFrame (normalisation, acos, degeneracy thresholds): out of reach",
-    "Matrix22 scale",
 ]
 ASSUMPTIONS = ["RING mode (see C05)", "cxx2c extraction rules; differential validation"]
